@@ -51,6 +51,13 @@ def run (args : List String) : Option String :=
     let ys ← parseNS? ys; let xs ← parseNS? xs; let yd ← parseNS? yd; let xd ← parseNS? xd
     let nodata ← parseInt? nodata; let img ← parseImg? img
     pure (fmtImg (pastedList img (dny, dnx) fy fx (ys, xs) (yd, xd) nodata))
+  | ["detour", t, init, sn, dn, sny, snx, dny, dnx, a, simg, dimg] => do
+    let t ← (match t with | "i8" => some PixT.int8 | "b" => some PixT.bool | "o" => some PixT.other | _ => none)
+    let init ← parseBool? init
+    let sn ← parseOpt? parseInt? sn; let dn ← parseOpt? parseInt? dn
+    let sny ← parseInt? sny; let snx ← parseInt? snx; let dny ← parseInt? dny; let dnx ← parseInt? dnx
+    let a ← parseAff? a; let simg ← parseImg? simg; let dimg ← parseImg? dimg
+    pure (fmtImg (rioNNList t simg dimg (sny, snx) (dny, dnx) a sn dn init))
   | _ => none
 
 end OdcGeo.C10.Drv
